@@ -278,6 +278,14 @@ def run_entry(entry, n, seed, acc, tier):
             if sites and cc:
                 sg, ei = sites[ch.integer(0, len(sites) - 1)]
                 sg.vals[ei] = [ch.choice(cc)]
+        if ch.chance(.1):
+            # far more elements than the segment defines (reported, but the segment is located): past the 99th a reference
+            # designator cannot name them any more, the XML labels them by position
+            body_ = [sg for sg in doc.segs if sg.id not in ('ISA', 'GS', 'ST', 'SE', 'GE', 'IEA', 'HL', 'LX')]
+            if body_:
+                sg = body_[ch.integer(0, len(body_) - 1)]
+                n_ = ch.choice([100, 101, 104])
+                sg.vals = list(sg.vals) + [['']] * max(0, n_ - 2 - len(sg.vals)) + [['Y'], ['Z', 'W'] if ch.chance(.5) else ['Z']]
         if entry['icvn'] == '00401' and dl[0] != '~' and ch.chance(.3):
             # before 00501, ISA11 is an ordinary element: under other delimiters it may hold ~ * or :
             c_ = [x for x in '*~:' if x not in dl]
